@@ -33,3 +33,24 @@ package frame
 //@   loop 0 invariant forall i int :: 0 <= i && i < __ri(0) && !f.ShouldExcludeRaw(i) && f.RawKeys()[i].Leaseholder() != host && f.RawKeys()[i].Leaseholder() != node.KeyFree ==> (exists j int :: 0 <= j && j < len(remote.RawKeys()) && remote.RawKeys()[j] == f.RawKeys()[i] && __eq(remote.RawSeries()[j], f.RawSeries()[i]))
 //@   loop 0 invariant len(local.RawKeys()) + len(remote.RawKeys()) + len(free.RawKeys()) <= __ri(0)
 //@   loop 0 invariant (forall i int :: 0 <= i && i < __ri(0) ==> !f.ShouldExcludeRaw(i)) ==> len(local.RawKeys()) + len(remote.RawKeys()) + len(free.RawKeys()) == __ri(0)
+
+//@ # SplitByLeaseholder: one frame per leaseholder present; a frame holds only keys of its node;
+//@ # every visible entry is in the frame of its key's leaseholder; no empty frames.
+//@ func (f Frame) SplitByLeaseholder() (frames map[node.Key]Frame)
+//@   pragma abstract ShouldExcludeRaw
+//@   requires len(f.RawKeys()) == len(f.RawSeries())
+//@   ensures frames != nil
+//@   ensures forall n node.Key :: __in(frames, n) ==> len(frames[n].RawKeys()) == len(frames[n].RawSeries()) && len(frames[n].RawKeys()) > 0
+//@   ensures forall n node.Key, j int :: __in(frames, n) && 0 <= j && j < len(frames[n].RawKeys()) ==> frames[n].RawKeys()[j].Leaseholder() == n
+//@   ensures forall i int :: 0 <= i && i < len(f.RawKeys()) && !f.ShouldExcludeRaw(i) ==> __in(frames, f.RawKeys()[i].Leaseholder()) && (exists j int :: 0 <= j && j < len(frames[f.RawKeys()[i].Leaseholder()].RawKeys()) && frames[f.RawKeys()[i].Leaseholder()].RawKeys()[j] == f.RawKeys()[i] && __eq(frames[f.RawKeys()[i].Leaseholder()].RawSeries()[j], f.RawSeries()[i]))
+//@   ensures forall n node.Key :: __in(frames, n) ==> (exists i int :: 0 <= i && i < len(f.RawKeys()) && !f.ShouldExcludeRaw(i) && f.RawKeys()[i].Leaseholder() == n)
+//@   modifies nothing
+//@   loop 0 invariant frames != nil
+//@   loop 0 invariant forall n node.Key :: __in(frames, n) ==> len(frames[n].RawKeys()) == len(frames[n].RawSeries()) && len(frames[n].RawKeys()) > 0
+//@   loop 0 invariant forall n node.Key, j int :: __in(frames, n) && 0 <= j && j < len(frames[n].RawKeys()) ==> frames[n].RawKeys()[j].Leaseholder() == n
+//@   loop 0 invariant forall i int :: 0 <= i && i < __ri(0) && !f.ShouldExcludeRaw(i) ==> __in(frames, f.RawKeys()[i].Leaseholder()) && (exists j int :: 0 <= j && j < len(frames[f.RawKeys()[i].Leaseholder()].RawKeys()) && frames[f.RawKeys()[i].Leaseholder()].RawKeys()[j] == f.RawKeys()[i] && __eq(frames[f.RawKeys()[i].Leaseholder()].RawSeries()[j], f.RawSeries()[i]))
+//@   loop 0 invariant forall n node.Key :: __in(frames, n) ==> (exists i int :: 0 <= i && i < __ri(0) && !f.ShouldExcludeRaw(i) && f.RawKeys()[i].Leaseholder() == n)
+//@   loop 0 modifies frames
+//@   # proof hints (each is proved where it stands, then used): the appended entry is the last one of
+//@   # its node's frame, and earlier entries of that frame keep their positions
+//@   assert_after "frames[nodeKey] = frames[nodeKey].Append(key, ser)" __in(frames, nodeKey) && len(frames[nodeKey].RawKeys()) > 0 && frames[nodeKey].RawKeys()[len(frames[nodeKey].RawKeys())-1] == key && __eq(frames[nodeKey].RawSeries()[len(frames[nodeKey].RawKeys())-1], ser)
